@@ -2,6 +2,7 @@
 uninterpreted and hash-consed; two outputs with the same term are equal under every interpretation of the operations
 (NaNs and signed zeros included).  The agreement is additionally handed to z3 as a QF_UF validity query on the term DAG."""
 import random
+import re
 import subprocess
 import time
 
@@ -55,6 +56,67 @@ def to_smt(dom, roots_a, roots_b):
     return "\n".join(lines)
 
 
+# ----------------------------------------------------------------------------- writes to shared storage after a marker (C12)
+_SYM = re.compile(r"^\|([^|#]+)#(\d+)([^|]*)\|$")
+_PRIVATE = re.compile(r"^(goto_symex::|symex::|__CPROVER|vf_in$|vf_nin$|vf_marker$|vf_tid$|VF_OUT\d*$|vf_nowrap$|return_value|nondet|bvfromfloat)")
+
+
+def shared_writes_after_marker(vc, marker="vf_marker"):
+    """The exported VC lists CBMC's SSA assignments in program order.  Symbols of automatic objects carry a frame suffix (`x!0@1`),
+    thread-local static objects a thread suffix only (`f::1::p!0`), shared static-lifetime objects and heap objects none.  Returns the
+    shared objects that have an assignment both before and after the assignment to `marker` (objects first assigned after the marker are
+    heap objects the later calls allocate themselves), as {object: [guard satisfiability unknown symbols...]}; None if there is no marker."""
+    names = list(vc.defs.keys())
+    pos = None
+    for i, n in enumerate(names):
+        m = _SYM.match(n)
+        if m and m.group(1) == marker and int(m.group(2)) >= 2:
+            pos = i
+            break
+    if pos is None:
+        return None
+    before = set()
+    after = {}
+    for i, n in enumerate(names):
+        m = _SYM.match(n)
+        if not m:
+            continue
+        base = m.group(1)
+        if "!" in base or _PRIVATE.match(base):
+            continue
+        if i < pos:
+            before.add(base)
+        else:
+            after.setdefault(base, []).append(n)
+    return {b: v for b, v in after.items() if b in before}
+
+
+def _is_phi_copy(vc, name):
+    """|x#k+1| defined as |x#k| (or the same element of it): CBMC's merge of two paths that did not write - not a write"""
+    m = _SYM.match(name)
+    t = vc.defs[name]
+    if isinstance(t, str):
+        m2 = _SYM.match(t)
+        return bool(m2 and m2.group(1) == m.group(1) and m2.group(3) == m.group(3))
+    return False
+
+
+def _replay_inputs(params, rnd):
+    """generic operand values for the native confirmation of a term mismatch: small integers mixed with values of large binary exponent
+    (a stale table with another divisor / bound / overhead only shows on operands near its limits)"""
+    import struct
+    out = []
+    for k in range(params.get("nin", 64)):
+        if params.get("float_inputs", True):
+            x = float(rnd.randint(-1000, 1000))
+            if k % 2:
+                x = (x + 0.5) * 2.0 ** rnd.randint(20, 58)
+            out.append(str(struct.unpack("<Q", struct.pack("<d", x))[0]))
+        else:
+            out.append(str(rnd.getrandbits(62)))
+    return out
+
+
 def check_equal(smt2, params, spec_):
     """params: out_a, out_b (base names of the two output arrays), n (number of elements), nin (replay inputs)"""
     t0 = time.time()
@@ -76,11 +138,22 @@ def check_equal(smt2, params, spec_):
             if d > 2 or k[0] != "app":
                 return k[0] + ":" + str(k[1])[:30]
             return "%s(%s)" % (k[1], ", ".join(show(a, d + 1) for a in k[2]))
-        import struct
-        reps = [str(struct.unpack("<Q", struct.pack("<d", float(rnd.randint(-1000, 1000))))[0]) if params.get("float_inputs", True) else str(rnd.getrandbits(62))
-                for _ in range(params.get("nin", 64))]
+        reps = _replay_inputs(params, rnd)
         return {"status": "FAIL", "stats": stats, "replay_inputs": reps,
                 "detail": "outputs %s of the two executions are different terms, e.g. [%d]: %s  vs  %s" % (diff[:4], diff[0], show(ra[diff[0]]), show(rb[diff[0]]))}
+    if params.get("marker"):
+        # C12: after the warm-up calls (marker), no later call through the caching entry point assigns a shared static-lifetime object
+        # or a heap object that existed before (tables built during warm-up, operands)
+        sw = shared_writes_after_marker(vc, params["marker"])
+        if sw is None:
+            return {"status": "INCONCLUSIVE", "stats": stats, "detail": "marker assignment %s not found in the exported VC" % params["marker"]}
+        sw = {b: [x for x in v if not _is_phi_copy(vc, x)] for b, v in sw.items()}
+        sw = {b: v for b, v in sw.items() if v}
+        stats["shared_objects_assigned_after_warmup"] = sorted(sw)
+        if sw:
+            reps = _replay_inputs(params, rnd)
+            return {"status": "FAIL", "stats": stats, "replay_inputs": reps, "replay_defs": {"VF_TSAN_REPLAY": None}, "replay_sanitizer": "thread",
+                    "detail": "calls after the warm-up assign shared (not thread-local) objects: " + ", ".join("%s (%s)" % (b, v[0]) for b, v in sorted(sw.items())[:4])}
     # cross-check with z3 (congruence closure); only for moderately sized DAGs
     solver_s = 0.0
     if len(dom.nodes) < 200000 and n:
